@@ -1,7 +1,140 @@
-From Coq Require Import String List ZArith.
-From Verif Require Import Lib.Text Lib.C12_ExpFormat Model.C12_Nav Gen.C12_Tables.
+(* Props/C12.v - the proof obligations of C12 (statements only; proofs in Proofs/C12_Nav.v, Lib/C12_ExpFormat.v). *)
+From Coq Require Import Ascii String List Bool Arith ZArith QArith Lia.
+From Verif Require Import Lib.Text Lib.Dyadic Lib.C12_ExpFormat Model.C12_Nav Gen.C12_Tables Proofs.C12_Nav.
+Import ListNotations.
+Local Open Scope string_scope.
 
+(* every number printed with E/D/e/d exponent, in any mantissa style and column width, parses to exactly its value *)
 Theorem parse_render_num : forall ok w n,
   num_wf ok n = true -> parse_float ok (render_num w n) = Some (num_dec n).
 Proof. exact C12_ExpFormat.parse_render_num. Qed.
 Print Assumptions parse_render_num.
+
+(* the regenerated data_parser tables are the 19-character column layout of the format (lead 4 / 3);
+   in that layout column i of a line spans [lead + 19 i, lead + 19 (i+1)), the first one starting at 0 *)
+Theorem nav_fields_wf :
+  (table_equiv nav_table_rinex3_nav (layout V3) = true /\
+   table_equiv nav_table_rinex2_nav (layout V2) = true /\
+   table_equiv nav_table_rinex212_nav (layout V212) = true) /\
+  (forall names start first i n, nth_error names i = Some n ->
+     nth_error (layout_fields names start first) i
+     = Some (n, (if first && (i =? 0)%nat then 0 else start + i * fw, start + (i + 1) * fw)%nat)).
+Proof. exact (conj tables_wf layout_fields_spec). Qed.
+Print Assumptions nav_fields_wf.
+
+Theorem nav_obs_line_roundtrip : forall ok v names nums,
+  length names = length nums -> forallb (field_wf ok) nums = true ->
+  floats ok (map (cut (rstrip (spaces (lead v) ++ cat (map render_field nums)))) (layout_fields names (lead v) true))
+  = Some (combine names (map num_val nums)).
+Proof. exact C12_Nav.nav_obs_line_roundtrip. Qed.
+Print Assumptions nav_obs_line_roundtrip.
+
+(* a record of 29 values (blank = 0, sign abutting, any exponent letter) parses to exactly its values, all three parsers *)
+Theorem nav_record_roundtrip :
+  (forall r sys2, nrec_wf V3 true r = true -> skipped r = false ->
+     parse_record V3 spec_q sys2 (layout V3) (render_record V3 r) = RRec (prec_of V3 sys2 r)) /\
+  (forall r c2, nrec_wf V2 true r = true -> skipped r = false ->
+     parse_record V2 spec_q (String c2 "") (layout V2) (render_record V2 r) = RRec (prec_of V2 (String c2 "") r)) /\
+  (forall r c2, nrec_wf V212 true r = true -> skipped r = false ->
+     parse_record V212 spec_q (String c2 "") (layout V212) (render_record V212 r) = RRec (prec_of V212 (String c2 "") r)).
+Proof. exact (conj record_rt_v3 (conj record_rt_v2 record_rt_v212)). Qed.
+Print Assumptions nav_record_roundtrip.
+
+(* GLONASS / SBAS records (4 lines) store nothing, and a file parses as if they were not there *)
+Theorem skipped_records :
+  (forall r sys2, nrec_wf V3 true r = true -> skipped r = true ->
+     parse_record V3 spec_q sys2 (layout V3) (render_record V3 r) = RSkip) /\
+  (forall rs sys2, Forall (fun r => nrec_wf V3 true r = true) rs ->
+     parse_body V3 spec_q sys2 (layout V3) (render_body V3 rs)
+     = parse_body V3 spec_q sys2 (layout V3) (render_body V3 (supported_recs rs))).
+Proof. exact (conj record_skip_v3 skipped_no_trace). Qed.
+Print Assumptions skipped_records.
+
+(* files of any number of records: exactly the supported records, in file order *)
+Theorem nav_file_roundtrip :
+  (forall rs sys2, Forall (fun r => nrec_wf V3 true r = true) rs ->
+     parse_body V3 spec_q sys2 (layout V3) (render_body V3 rs) = Some (map (prec_of V3 sys2) (supported_recs rs))) /\
+  (forall rs c2, Forall (fun r => nrec_wf V2 true r = true /\ skipped r = false) rs ->
+     parse_body V2 spec_q (String c2 "") (layout V2) (render_body V2 rs) = Some (map (prec_of V2 (String c2 "")) rs)) /\
+  (forall rs c2, Forall (fun r => nrec_wf V212 true r = true /\ skipped r = false) rs ->
+     parse_body V212 spec_q (String c2 "") (layout V212) (render_body V212 rs) = Some (map (prec_of V212 (String c2 "")) rs)).
+Proof. exact (conj file_rt_v3 (conj file_rt_v2 file_rt_v212)). Qed.
+Print Assumptions nav_file_roundtrip.
+
+(* SYSNAMES of the three parsers = the format's system specific names, for every field and every system string;
+   every renamed column is its general column restricted to the systems that map to the name (None elsewhere) *)
+Theorem rename_spec :
+  (forall f s, name_of sysnames_rinex3_nav f s = name_of spec_sysnames f s) /\
+  (forall f s, name_of sysnames_rinex2_nav f s = name_of spec_sysnames f s) /\
+  (forall f s, name_of sysnames_rinex212_nav f s = name_of spec_sysnames f s) /\
+  (forall sn ps n col, In (n, col) (rename3 sn ps) ->
+     exists f m, In (f, m) sn /\ In n (map snd m) /\
+       col = map (fun p => match alookup (p_sys p) m with
+                           | Some n' => if String.eqb n' n then pval f p else None
+                           | None => None end) ps) /\
+  (forall sn sys2 ps n col, In (n, col) (rename2 sn sys2 ps) ->
+     exists f m, In (f, m) sn /\ alookup sys2 m = Some n /\ col = map (pval f) ps).
+Proof. exact (conj sysnames3_spec (conj sysnames2_spec (conj sysnames212_spec (conj rename3_entry rename2_entry)))). Qed.
+Print Assumptions rename_spec.
+
+(* BeiDou: +14 s, +1356 weeks; every other system 0 - regenerated offset tables, for every system string *)
+Theorem bds_shift :
+  (forall s,
+    off_of sec_offset_rinex3_nav s = spec_soff s /\ off_of week_offset_rinex3_nav s = spec_woff s /\
+    off_of sec_offset_rinex2_nav s = spec_soff s /\ off_of week_offset_rinex2_nav s = spec_woff s /\
+    off_of sec_offset_rinex212_nav s = spec_soff s /\ off_of week_offset_rinex212_nav s = spec_woff s) /\
+  (spec_soff "C" = 14%Z /\ spec_woff "C" = 1356%Z /\
+   (forall s, s <> "C"%string -> spec_soff s = 0%Z /\ spec_woff s = 0%Z)).
+Proof. exact (conj offsets_spec bds_values). Qed.
+Print Assumptions bds_shift.
+
+(* week cross-over: a time more than half a week away from the record epoch is moved by one week towards it *)
+Theorem week_crossover_spec : forall toc t,
+  ((halfQ < toc - t)%Q -> resolve toc t == t + weekQ) /\
+  ((toc - t < - halfQ)%Q -> resolve toc t == t - weekQ) /\
+  ((- halfQ <= toc - t)%Q -> (toc - t <= halfQ)%Q -> resolve toc t == t) /\
+  ((- (halfQ + weekQ) <= toc - t)%Q -> (toc - t <= halfQ + weekQ)%Q ->
+     (- halfQ <= toc - resolve toc t)%Q /\ (toc - resolve toc t <= halfQ)%Q).
+Proof. exact resolve_spec. Qed.
+Print Assumptions week_crossover_spec.
+
+Theorem crossover_per_record : forall rows,
+  cross spec_q rows = map (fun r : Q * Q * Q => let '(toc, wb, s) := r in resolve toc (wb + s)) rows.
+Proof. exact cross_per_record. Qed.
+Print Assumptions crossover_per_record.
+
+Theorem columns_equal_length : forall v q hdr sys2 ps,
+  let c := build_cols v q hdr sys2 ps in
+  (forall n col, In (n, col) (c_float c) -> length col = length ps) /\
+  (forall n col, In (n, col) (c_time c) -> length col = length ps) /\
+  (forall n col, In (n, col) (c_text c) -> length col = length ps).
+Proof. exact cols_equal_length. Qed.
+Print Assumptions columns_equal_length.
+
+(* the quirks of the code are not the specification *)
+Theorem c12_lowercase_d_refuted :
+  parse_float false " 1.0d-01" = None /\ parse_float true " 1.0d-01" = Some (10%Z, (-2)%Z).
+Proof. exact (conj lower_d_rejected lower_d_accepted). Qed.
+Print Assumptions c12_lowercase_d_refuted.
+
+Theorem c12_crossover_elif_refuted :
+  all2 Qeq_bool (cross (mkQ false false true false false) wrows_mixed) (cross spec_q wrows_mixed) = false /\
+  all2 Qeq_bool (cross (mkQ false false true true false) wrows_mixed) (cross spec_q wrows_mixed) = false.
+Proof. exact elif_refuted. Qed.
+Print Assumptions c12_crossover_elif_refuted.
+
+Theorem c12_crossover_sow_refuted :
+  all2 Qeq_bool (cross (mkQ false false false true false) wrows_week) (cross spec_q wrows_week) = false /\
+  all2 Qeq_bool (cross spec_q wrows_week) [1140048000%Q] = true.
+Proof. exact sow_refuted. Qed.
+Print Assumptions c12_crossover_sow_refuted.
+
+(* non-vacuity *)
+Example wf_records_exist :
+  forallb (fun s => nrec_wf V3 true (ex_rec s)) ["G"; "R"; "E"; "S"; "C"; "J"; "I"] = true
+  /\ nrec_wf V2 true (ex_rec "G") = true.
+Proof. exact ex_wf. Qed.
+Example file_example :
+  parse_body V3 spec_q "G" (layout V3) (render_body V3 (map ex_rec ["G"; "R"; "C"; "S"]))
+  = Some (map (prec_of V3 "G") [ex_rec "G"; ex_rec "C"]).
+Proof. vm_compute. reflexivity. Qed.
